@@ -14,6 +14,7 @@ INVARIANT CleanIffEqual
 INVARIANT Partition
 INVARIANT RoundTrip
 INVARIANT StageAllComplete
+INVARIANT StageComplete
 INVARIANT NormalCovers
 PROPERTY StageAllAfterCheckout
 CHECK_DEADLOCK FALSE
